@@ -75,3 +75,9 @@ Definition normalize (ds : list fdesc) (obj : list (str * json)) : list (str * j
 
 (* ---- enums: unit variants, `rename` when the identifier differs from the value ---- *)
 Definition variant_wire (idn value : str) : str := if str_eqb idn value then idn else value.
+
+(* one generated struct as a whole: the members serde_derive reads from [obj] and writes back, or None when the
+   instance is rejected (a member without default is missing) *)
+Definition serde_struct (fields : list (str * hfield)) (obj : list (str * json)) : result (option (list (str * json))) :=
+  do ds <- mapM (fun kf => field_desc (fst kf) (snd kf)) fields;
+  Ok (match de_struct ds obj with Some vs => Some (ser_struct ds vs) | None => None end).
